@@ -107,6 +107,7 @@ Observe(os) ==
 SerKinds == <<"json", "pickle", "cli_json">>
 SerializeOp(kind, os) ==
   /\ hist' = Append(hist, [op |-> "Serialize", kind |-> kind, obs |-> os]) /\ UNCHANGED <<t, used>>
+(* k_paths() fills caches on the tree object and (called on them as well) on its subtree objects; no visible change *)
 TouchKPathsOp(kk, concrete, os) ==
   /\ ValidTree(G, t)          \* k-paths are only defined for derivation trees of the grammar
   /\ hist' = Append(hist, [op |-> "TouchKPaths", kk |-> kk, concrete |-> concrete, obs |-> os]) /\ UNCHANGED <<t, used>>
